@@ -17,6 +17,25 @@ def V(name, rule, file, old, new, nth=None):
 
 
 VARIANTS = {
+    'C03': [
+        V('expand: exclusivity loop dropped', 'C03.R1', 'solver/flaw.cpp', "            if (exclusive) // we make the resolvers mutually exclusive..\n                for (size_t i = 0; i < resolvers.size(); ++i)\n                    for (size_t j = i + 1; j < resolvers.size(); ++j)\n                        if (!slv.get_sat_core().new_clause({!resolvers[i]->rho, !resolvers[j]->rho}))\n                            throw unsolvable_exception();\n", ""),
+        V('expand: flaw without resolvers not forbidden', 'C03.R1', 'solver/flaw.cpp', "            if (!slv.get_sat_core().new_clause({!phi}))\n                throw unsolvable_exception();", "            {}"),
+        V('add_resolver: resolver does not imply the flaw', 'C03.R1', 'solver/flaw.cpp', "        if (!slv.get_sat_core().new_clause({!r.rho, phi}))\n            throw unsolvable_exception();\n        resolvers.push_back(&r);", "        resolvers.push_back(&r);"),
+        V('atom_flaw not exclusive', 'C03.R1', 'solver/flaws/atom_flaw.cpp', "flaw(slv, std::move(causes), true), atm(atm), is_fact(is_fact)", "flaw(slv, std::move(causes), false), atm(atm), is_fact(is_fact)"),
+        V('unifier without the equality literal', 'C03.R2', 'solver/flaws/atom_flaw.cpp', "{lit(atm.get_sigma(), false), lit(t_atm.get_sigma()), eq_lit}", "{lit(atm.get_sigma(), false), lit(t_atm.get_sigma()), lit(t_atm.get_sigma())}"),
+        V('unification with causally later atoms allowed', 'C03.R2', 'solver/flaws/atom_flaw.cpp', "                    get_solver().get_idl_theory().distance(get_position(), t_flaw.get_position()).first > 0 || // unifying with the target atom would introduce cyclic causality..\n", ""),
+        V('unifier not linked to its target', 'C03.R2', 'solver/flaws/atom_flaw.cpp', "                get_solver().new_causal_link(t_flaw, *u_res);\n", ""),
+        V('causal link: ordering clause dropped', 'C03.R2', 'solver/solver.cpp', "        [[maybe_unused]] bool new_dist = sat->new_clause({!r.rho, get_idl_theory().new_distance(r.effect.position, f.position, 0)});\n        assert(new_dist);\n", ""),
+        V('unify_atom::apply: unification literals not enforced', 'C03.R2', 'solver/flaws/atom_flaw.cpp', "        for (const auto &v : unif_lits)\n            if (!get_solver().get_sat_core().new_clause({!get_rho(), v}))\n                throw unsolvable_exception();\n", ""),
+        V('activate_goal does not apply the rule', 'C03.R3', 'solver/flaws/atom_flaw.cpp', "        static_cast<predicate &>(atm.get_type()).apply_rule(atm);\n", ""),
+        V('apply_rule skips the super-rules', 'C03.R3', 'core/predicate.cpp', "        for (const auto &sp : supertypes)\n            static_cast<predicate *>(sp)->apply_rule(a);\n", ""),
+        V('restore_ni only on the normal path', 'C03.R3', 'solver/solver.cpp', "            r.apply();\n        }", "            r.apply();\n            restore_ni();\n        }"),
+        V('flaw::init: non-strict ordering', 'C03.R4', 'solver/flaw.cpp', "new_distance(c->effect.position, position, -1)", "new_distance(c->effect.position, position, 0)"),
+        V('flaw::init: phi ignores the last cause', 'C03.R4', 'solver/flaw.cpp', "            cs.push_back(c->rho);", "            if (c != causes.back())\n                cs.push_back(c->rho);"),
+        V('equates skips non-synthetic check only', 'C03.R5', 'core/atom.cpp', "                    if (!f->is_synthetic())\n                        if (!get(f_name)->equates(*i.get(f_name)))\n                            return false;", "                    if (f->is_synthetic())\n                        if (!get(f_name)->equates(*i.get(f_name)))\n                            return false;"),
+        V('new_eq does not visit supertypes', 'C03.R5', 'core/atom.cpp', "                for (const auto &st : q.front()->get_supertypes())\n                    q.push(st);\n                q.pop();\n            }\n\n            switch (eqs.size())", "                q.pop();\n            }\n\n            switch (eqs.size())"),
+        V('propagate dispatches on the variable again', 'C03.R6', 'solver/solver.cpp', "                switch (sat->value(r->rho))", "                switch (sat->value(at_rhos_p->first))"),
+    ],
     'C07': [
         V('propagate: satisfied clause loses its watch', 'C07.R1', 'smt/clause.cpp', "        if (value(lits[0]) == True)\n        {\n            watches(p).push_back(this);\n            return true;\n        }", "        if (value(lits[0]) == True)\n            return true;"),
         V('propagate: new watch registered under the wrong literal', 'C07.R1', 'smt/clause.cpp', "                watches(!lits[1]).push_back(this);", "                watches(!lits[0]).push_back(this);"),
